@@ -29,6 +29,8 @@ def parseOp? : List String → Option Op
   | ["close"] => some .close
   | ["sopen", "0"] => some (.syncOpen .missing) | ["sopen", "1"] => some (.syncOpen .ok) | ["sopen", "3"] => some (.syncOpen .failing)
   | ["sclose"] => some .syncClose
+  | ["inj", "upd", n] => n.toNat?.map fun i => .inject (.upd i)
+  | ["inj", "dup", n] => n.toNat?.map fun i => .inject (.dupVal i)
   | ["dact", "a", "close"] => some (.deliverAct .allPkt .close) | ["dact", "a", "err"] => some (.deliverAct .allPkt .err)
   | ["dact", "p", "close"] => some (.deliverAct .port .close) | ["dact", "p", "err"] => some (.deliverAct .port .err)
   | _ => none
@@ -72,7 +74,7 @@ def step1 (st : DSt) (ws : List String) : DSt × String :=
     match parseOp? ws with
     | none => (st, "bad-op")
     | some op =>
-      if ¬ allowed st.s op then (st, "not-allowed") else
+      if ¬ allowed st.d st.s op then (st, "not-allowed") else
       let r := step st.d st.s op
       let s := r.1
       let outs := if r.2.isEmpty then "-" else ",".intercalate (r.2.map showOut)
